@@ -10,7 +10,7 @@ claim('C07',
       'Decides the dispatch structure of the numeric tower, not numeric values: the exhaustive 4x4 result-level table of '
       'every binary_match!-generated operator impl and of div_floor/mod_floor (288 rows), that each level applies the impl\'s '
       'own operation, that // and %% come from one rounding family per level (flooring helpers), the operand-side, '
-      'length-guard and error arms of the vectorisation wrappers, and the zero-divisor guard of exact division; no unreduced Ratio::new_raw anywhere; a rational becomes a float only through the correctly rounded whole-fraction conversion.',
+      'length-guard and error arms of the vectorisation wrappers, and the zero-divisor guard of exact division; no unreduced Ratio::new_raw anywhere; a rational becomes a float only through the correctly rounded whole-fraction conversion. rational(x) never parses the rendering of a number.',
       'finite decision tables from HIR patterns + MIR callee/provenance facts')
 claim('C06',
       'Decides representation independence of the integer dispatch layer, not arithmetic exactness: sign/signum tables by '
@@ -96,7 +96,7 @@ claim('C02',
       'really released - no-op drops only for homogeneous payloads) before the operator runs on the value read, elements are taken out '
       'before the every-function runs, every function of the in-place path goes through Rc::make_mut and contains no whole-payload '
       'copy or reallocation, consuming iterators drain unique handles, arguments travel by value, the drop before the operator is unconditional on '
-      'every path, no write closure snapshots the cell it is about to write, the walkers never clone the element they fetched, and no in-place function takes a second Rc handle to its payload.',
+      'every path, no write closure snapshots the cell it is about to write, the walkers never clone the element they fetched, and no in-place function takes a second Rc handle to its payload. Env::modify_ident clones no value.',
       'dominance (must-pass-through) + forbidden-callee census over the in-place function table')
 claim('C14',
       'Decides an exact, reviewed inventory rather than panic-freedom for all inputs: every explicit panic site and every compiler-'
